@@ -42,7 +42,8 @@ def plan(prop, tier, models):
             elif mid.startswith("c15-frontier"):
                 b = [(3, 900)] if threads <= 4 else [(2, 900)]
             else:
-                b = [(3, 1200)]
+                # the 3-claimer models do not finish bound 3 (the 2-claimer ones do, in 3-4 min each)
+                b = [(3, 420)]
         out[mid] = b
     return out
 
